@@ -106,6 +106,7 @@ Proof.
   rewrite process_set_req by exact Hw.
   destruct (process_message s (from_wire one_rr w)) as [t [e|]]; [reflexivity|].
   change (done (set_req t b)) with (done t). change (pub (set_req t b)) with (pub t).
+  rewrite Hw. cbn [negb]. rewrite !andb_false_r.
   destruct (done t); [reflexivity|]. rewrite IH by exact Hws. reflexivity.
 Qed.
 
@@ -122,129 +123,31 @@ Proof.
     apply (drive_set_req false ws (mkSt z None rdt false (match ser with Some sv => sv | None => 0 end) false None false false false false) true Hs).
 Qed.
 
-(* ---- with require_tsig, a message without TSIG never publishes anything ---- *)
-Lemma step_unsigned_pub : forall (fl : flag) s r s' o, req_tsig s = true -> fl <> Last ->
-  step fl s r = (s', o) -> pub s' = pub s.
-Proof.
-  intros fl [p t rd inc se u so d e dm rq] r s' o Hrq Hfl H. cbn in Hrq. subst rq.
-  unfold step, res_of in H.
-  cbn [pub txn rdtype incremental serial is_udp soa done expecting delmode req_tsig
-       set_pub set_txn set_incremental set_serial set_soa set_done set_expecting set_delmode] in H.
-  destruct fl; [| congruence |]; cbn [andb] in H;
-    repeat match type of H with
-           | context [if ?b then _ else _] => destruct b
-           | context [match ?x with _ => _ end] => destruct x
-           end; inversion H; subst; reflexivity.
-Qed.
-
-Lemma loop_unsigned_pub : forall rs s s' o, req_tsig s = true ->
-  loopT false s rs = (s', o) -> pub s' = pub s.
-Proof.
-  induction rs as [|r rest IH]; intros s s' o Hrq H; cbn [loopT] in H.
-  - inversion H; reflexivity.
-  - destruct (step _ s r) as [s1 [e|]] eqn:Hs.
-    + inversion H; subst. eapply step_unsigned_pub; [exact Hrq| |exact Hs]. destruct rest; discriminate.
-    + pose proof (step_req_tsig _ _ _ _ _ Hs) as R.
-      apply step_unsigned_pub in Hs; [|exact Hrq|destruct rest; discriminate].
-      apply IH in H; [|congruence]. congruence.
-Qed.
-
-(* one call of process_message on a message without TSIG, when TSIGs are required: nothing is published *)
-Theorem unsigned_message_never_applies : forall s m s' o,
-  req_tsig s = true -> m_tsig m = false ->
-  process_message s m = (s', o) -> pub s' = pub s.
-Proof.
-  intros s m s' o Hrq Hsig H. unfold process_message in H. rewrite Hsig in H.
-  set (sx := match txn s with
-             | None => set_txn s (Some (if incremental s then pub s else []))
-             | Some _ => s end) in *.
-  assert (Hp0 : pub sx = pub s) by (subst sx; destruct (txn s); reflexivity).
-  assert (Hr0 : req_tsig sx = true) by (subst sx; destruct (txn s); exact Hrq).
-  clearbody sx. rewrite <- Hp0.
-  assert (AFTER : forall sa rs, req_tsig sa = true -> pub sa = pub sx ->
-    (match loopT false sa rs with
-     | (s1, Some e) => (s1, Some e)
-     | (s1, None) => if is_udp s1 && negb (done s1) then (s1, Some eUDPEnd) else (s1, None)
-     end) = (s', o) -> pub s' = pub sx).
-  { intros sa rs Hra Hpa HA. destruct (loopT false sa rs) as [s1 o1] eqn:Hl.
-    apply loop_unsigned_pub in Hl; [|exact Hra].
-    destruct o1; [inversion HA; subst; congruence|].
-    destruct (is_udp s1 && negb (done s1)); inversion HA; subst; congruence. }
-  destruct (negb (m_rcode m =? 0)); [inversion H; reflexivity|].
-  match type of H with (match ?q with Some e => _ | None => _ end) = _ => destruct q end; [inversion H; reflexivity|].
-  destruct (soa sx).
-  - eapply AFTER; [exact Hr0|reflexivity|exact H].
-  - destruct (m_answer m) as [|r0 rest]; [inversion H; reflexivity|].
-    destruct (negb (s_name r0 =? origin)); [inversion H; reflexivity|].
-    destruct (negb (s_type r0 =? tSOA)); [inversion H; reflexivity|].
-    cbn [incremental set_soa] in H.
-    destruct (incremental sx).
-    + destruct (soa_serial r0); [|inversion H; reflexivity].
-      cbn [serial is_udp set_soa] in H.
-      destruct (z =? serial sx).
-      * eapply (AFTER (set_done (set_soa sx (Some r0)) true)); [exact Hr0|reflexivity|exact H].
-      * destruct (serial_lt z (serial sx)); [inversion H; reflexivity|].
-        match type of H with (if ?c then _ else _) = _ => destruct c end; [inversion H; reflexivity|].
-        eapply (AFTER (set_expecting (set_soa sx (Some r0)) true)); [exact Hr0|reflexivity|exact H].
-    + eapply (AFTER (set_soa sx (Some r0))); [exact Hr0|reflexivity|exact H].
-Qed.
-
-(* hence: the zone an authenticated transfer ends with differs from the initial one only if the
-   last message processed - the one that completed the transfer - carried a TSIG *)
+(* an authenticated transfer only completes on a message that carries a TSIG (the last one processed) *)
 Lemma drive_signed_completion : forall one_rr ws s z' n,
   req_tsig s = true -> drive one_rr s ws = (Done z', n) ->
-  z' = pub s \/ exists w, nth_error ws (pred n) = Some w /\ w_tsig w = true.
+  exists w, nth_error ws (pred n) = Some w /\ w_tsig w = true.
 Proof.
   induction ws as [|w ws IH]; intros s z' n Hrq H; cbn [drive] in H; [discriminate|].
   destruct (process_message s (from_wire one_rr w)) as [s1 [e|]] eqn:Hp; [discriminate|].
-  assert (R1 : req_tsig s1 = true).
-  { clear - Hp Hrq. unfold process_message in Hp.
-    set (sx := match txn s with None => set_txn s (Some (if incremental s then pub s else [])) | Some _ => s end) in *.
-    assert (Hr0 : req_tsig sx = true) by (subst sx; destruct (txn s); exact Hrq). clearbody sx.
-    assert (AFTER : forall sg sa rs t o, req_tsig sa = true ->
-      (match loopT sg sa rs with
-       | (s1, Some e) => (s1, Some e)
-       | (s1, None) => if is_udp s1 && negb (done s1) then (s1, Some eUDPEnd) else (s1, None)
-       end) = (t, o) -> req_tsig t = true).
-    { intros sg sa rs t o Hra HA. destruct (loopT sg sa rs) as [s2 o2] eqn:Hl.
-      apply loop_inv in Hl. destruct Hl as (_ & _ & _ & _ & R).
-      destruct o2; [inversion HA; subst; congruence|].
-      destruct (is_udp s2 && negb (done s2)); inversion HA; subst; congruence. }
-    destruct (negb (m_rcode (from_wire one_rr w) =? 0)); [inversion Hp; subst; exact Hr0|].
-    match type of Hp with (match ?q with Some e => _ | None => _ end) = _ => destruct q end; [inversion Hp; subst; exact Hr0|].
-    destruct (soa sx).
-    - eapply AFTER; [exact Hr0|exact Hp].
-    - destruct (m_answer (from_wire one_rr w)) as [|r0 rest]; [inversion Hp; subst; exact Hr0|].
-      destruct (negb (s_name r0 =? origin)); [inversion Hp; subst; exact Hr0|].
-      destruct (negb (s_type r0 =? tSOA)); [inversion Hp; subst; exact Hr0|].
-      cbn [incremental set_soa] in Hp.
-      destruct (incremental sx).
-      + destruct (soa_serial r0); [|inversion Hp; subst; exact Hr0].
-        cbn [serial is_udp set_soa] in Hp.
-        destruct (z =? serial sx).
-        * eapply (AFTER _ (set_done (set_soa sx (Some r0)) true)); [exact Hr0|exact Hp].
-        * destruct (serial_lt z (serial sx)); [inversion Hp; subst; exact Hr0|].
-          match type of Hp with (if ?c then _ else _) = _ => destruct c end; [inversion Hp; subst; exact Hr0|].
-          eapply (AFTER _ (set_expecting (set_soa sx (Some r0)) true)); [exact Hr0|exact Hp].
-      + eapply (AFTER _ (set_soa sx (Some r0))); [exact Hr0|exact Hp]. }
+  assert (R1 : req_tsig s1 = true) by (rewrite (process_req_tsig _ _ _ _ Hp); exact Hrq).
   destruct (done s1) eqn:Hd.
-  - inversion H; subst. cbn [pred nth_error].
-    destruct (w_tsig w) eqn:Hsig; [right; exists w; auto|left].
-    eapply unsigned_message_never_applies; [exact Hrq| |exact Hp]. exact Hsig.
+  - rewrite R1 in H. cbn [andb] in H. destruct (w_tsig w) eqn:Hsig; cbn [negb] in H; [|discriminate].
+    inversion H; subst. exists w. auto.
   - destruct (drive one_rr s1 ws) as [r n'] eqn:Hdr. inversion H; subst.
-    assert (Hps : pub s1 = pub s).
-    { apply process_message_pub in Hp. destruct Hp as [?|[_ [? _]]]; [assumption|congruence]. }
-    destruct (IH s1 z' n' R1 Hdr) as [Hz|[w' [Hn Hs']]]; [left; congruence|right].
+    destruct (IH s1 z' n' R1 Hdr) as [w' [Hn Hs']].
     exists w'. split; [|exact Hs']. destruct n' as [|k]; [|exact Hn].
     (* n' = 0 is impossible for a Done result *)
     exfalso. clear - Hdr. destruct ws as [|w2 ws2]; cbn [drive] in Hdr; [discriminate|].
     destruct (process_message s1 (from_wire one_rr w2)) as [s2 [e|]]; [discriminate|].
-    destruct (done s2); [inversion Hdr|]. destruct (drive one_rr s2 ws2); inversion Hdr.
+    destruct (done s2); [destruct (req_tsig s2 && negb (w_tsig w2)); inversion Hdr|].
+    destruct (drive one_rr s2 ws2); inversion Hdr.
 Qed.
 
+(* a completed authenticated transfer: the message that completed it was signed *)
 Theorem authenticated_completion_is_signed : forall z rdt ser udp ws z' n,
   xfr_run true z rdt ser udp ws = (Done z', n) ->
-  z' = z \/ exists w, nth_error ws (pred n) = Some w /\ w_tsig w = true.
+  exists w, nth_error ws (pred n) = Some w /\ w_tsig w = true.
 Proof.
   intros z rdt ser udp ws z' n H. unfold xfr_run in H.
   destruct (init_t true z rdt ser udp) as [s|e] eqn:Hi; [|discriminate].
@@ -252,5 +155,5 @@ Proof.
   { unfold init_t in Hi. destruct (rdt =? tIXFR).
     - destruct ser; inversion Hi; auto.
     - destruct (rdt =? tAXFR); [|discriminate]. destruct udp; inversion Hi; auto. }
-  destruct Hs as [Hp Hr]. apply drive_signed_completion in H; [|exact Hr]. rewrite Hp in H. exact H.
+  destruct Hs as [Hp Hr]. apply drive_signed_completion in H; [|exact Hr]. exact H.
 Qed.
